@@ -99,6 +99,7 @@ def gen_main(outcome):
     a("  while ((len = getline(&line, &cap, stdin)) > 0) {")
     a("    if (line[len-1] == '\\n') line[--len] = 0;")
     a('    if (!strcmp(line, "start")) {')
+    a("      memset(&S, 0xAA, sizeof S);")
     a("      int r = p_start(&S);")
     if not glob:
         for h in hooks:
